@@ -6,6 +6,8 @@ import walkers
 from guards import timed
 import id3file_tie
 import dsf_tie
+import asf_tie
+import ogginject_tie
 import iff_tie
 import apefile_tie
 
@@ -101,6 +103,8 @@ def run(ctx):
     opus_trailing_data(ctx)
     id3file_tie.run(ctx)
     dsf_tie.run(ctx)
+    asf_tie.run(ctx)
+    ogginject_tie.run(ctx)
     iff_tie.run(ctx)
     apefile_tie.run(ctx)
 
